@@ -13,7 +13,7 @@ from . import crashmc as C
 from .core import Violation, Inconclusive
 
 SCENARIOS = dict(quick=['gauss', 'wrap_net'],
-                 thorough=['gauss', 'wrap_net', 'blob_two_obj', 'two', 'net2_tanh', 'b7_update'])
+                 thorough=['gauss', 'wrap_net', 'blob_two_obj', 'two', 'net2_tanh', 'b7_update', 'enlarge25'])
 
 
 def _mk(d):
@@ -312,7 +312,11 @@ def pick_ordinals(data, n):
 
 def run(prop, tier):
     timer = core.Timer()
-    scns = scenarios.get(SCENARIOS[tier])
+    names = SCENARIOS[tier]
+    if os.environ.get('NVMC_ENTRIES'):
+        # debugging aid (never set by a registered command)
+        names = os.environ['NVMC_ENTRIES'].split(',')
+    scns = scenarios.get(names)
     root = core.scratch_root()
     try:
         wds = []
